@@ -504,7 +504,7 @@ def check(ctx, R):
     R.run("C20.i", rule_i, ctx)
     R.run("C20.j", rule_j, ctx)
     from . import preds
-    R.run("C20.p", lambda R, c: preds.rule(R, c, "C20.p", ["adjacent_left", "adjacent_right"]), ctx)
+    R.run("C20.p", lambda R, c: preds.rule(R, c, "C20.p", ["adjacent_left", "adjacent_right", "link_is_single"]), ctx)
     from . import c02 as _c02
     R.run("C20.h", lambda R, c: _c02.rule_g(R, c, "C20.h"), ctx)
     return {}
